@@ -117,8 +117,8 @@ ben('C18', 'zone-sectors-list-concat', [('models.py', "        out = []\n       
 # ---- C04 / C08 ---------------------------------------------------------------------------------------
 SEC = 'sector.py'
 for _pid in ('C04', 'C08'):
-    mut(_pid, 'demand-scan-stops-at-first-sector-without-demand', [(SEC, "                Logger('Variable {0} does not exist in {1}', priority=10,\n                       data_to_format=(var_name, s.FullCode))\n                continue", "                Logger('Variable {0} does not exist in {1}', priority=10,\n                       data_to_format=(var_name, s.FullCode))\n                break")], ['every_sector_of_the_zone_list_examined', 'included_iff', 'one_record_per'])
-    mut(_pid, 'demand-scan-country-only', [(SEC, "        for s in self.CurrencyZone.GetSectors():\n            if s.ID == self.ID:\n                continue\n            if self.ShareParent(s):", "        for s in self.Parent.GetSectors():\n            if s.ID == self.ID:\n                continue\n            if self.ShareParent(s):")], ['_GenerateTermsLowLevel', 'markets', 'permutations'])
-mut('C04', 'demand-outflow-booked-as-inflow', [(SEC, "                s.AddCashFlow('-' + var_name, '', long_desc)", "                s.AddCashFlow('+' + var_name, '', long_desc)")], ['demander_is_booked', '_GenerateTermsLowLevel'])
+    mut(_pid, 'demand-scan-stops-at-first-sector-without-demand', [(SEC, "                Logger('Variable {0} does not exist in {1}', priority=10,\n                       data_to_format=(var_name, s.FullCode))\n                continue", "                Logger('Variable {0} does not exist in {1}', priority=10,\n                       data_to_format=(var_name, s.FullCode))\n                break")], ['every_sector_of_the_zone_list_examined', 'included_iff', 'one_record_per', 'each_included_sector_has_its_term'])
+    mut(_pid, 'demand-scan-country-only', [(SEC, "        for s in self.CurrencyZone.GetSectors():\n            if s.ID == self.ID:\n                continue\n            if self.ShareParent(s):", "        for s in self.Parent.GetSectors():\n            if s.ID == self.ID:\n                continue\n            if self.ShareParent(s):")], ['_GenerateTermsLowLevel', 'markets', 'permutations', 'scratch', 'country_objects_exist'], allow_undecided=(_pid == 'C08'))
+mut('C04', 'demand-outflow-booked-as-inflow', [(SEC, "                s.AddCashFlow('-' + var_name, '', long_desc)", "                s.AddCashFlow('+' + var_name, '', long_desc)")], ['demander_is_booked', '_GenerateTermsLowLevel', 'inv_step'])
 mut('C04', 'demand-long-name-everywhere', [(SEC, "            if self.ShareParent(s):\n                var_name = short_name\n            else:\n                var_name = long_name", "            if self.ShareParent(s):\n                var_name = short_name\n            else:\n                var_name = short_name")], ['each_included_sector_has_its_term', 'included_iff', 'markets', '_GenerateTermsLowLevel'])
 mut('C08', 'business-labour-demand-created-late', [('sector_definitions.py', "        self.AddVariable('DEM_' + labour_input_name, 'Demand for labour', '')\n", "")], ['labour_demand_declared', 'permutations'])
